@@ -35,6 +35,10 @@ def raw_model(x):
     a = abs(x); n = (a.bit_length() + 7) // 8
     return ((-n if x < 0 else n) & 0xffffffff).to_bytes(4, 'big') + a.to_bytes(n, 'big')
 
+PF_FMTS = [('%Zd|%Qd|%.10Ff', 'Z1 Q1 F1'), ('x=%Zx y=%d %s', 'Z1 #42 ' + shex('tail')), ('%Qx\n', 'Q1'), ('[%20Zd]', 'Z1'), ('%s%Zd%s', shex('ab') + ' Z1 ' + shex('cd')),
+           ('%.20Fe', 'F1'), ('%Zd', 'Z1'), ('%40Zd', 'Z1'), ('%-40Zd', 'Z1'), ('%040Zx', 'Z1'), ('%Qd', 'Q1'), ('%-30Qd', 'Q1'), ('%Ff', 'F1'), ('%-50.3Fg', 'F1'),
+           ('%d %Zd', '#7 Z1'), ('%s|%-12Zd', shex('head') + ' Z1'), ('%Zd%Zd', 'Z1 Z1'), ('%.30Zd', 'Z1'), ('%#Zx %Fe', 'Z1 F1'), ('%Zd %c', 'Z1 #65')]
+
 def specs(rng, tier, wid, nw, env):
     q = tier == 'quick'; k = 0
     for size in range(1, 17):
@@ -50,7 +54,14 @@ def specs(rng, tier, wid, nw, env):
         k += 1
         if k % nw == wid: yield ('trunc', rng.choice(['raw', 'raw', 'zstr', 'qstr', 'fstr']), rng.getrandbits(48))
         k += 1
-        if k % nw == wid: yield ('wfail', rng.choice(['raw', 'zstr', 'qstr', 'fstr', 'fprintf', 'fprintf']), rng.getrandbits(48))
+        if k % nw == wid: yield ('wfail', rng.choice(['raw', 'zstr', 'qstr', 'fstr']), rng.getrandbits(48))
+    # gmp_fprintf / gmp_vfprintf write failures: every format shape (MPIR conversion first / in the middle / last, padding on either side,
+    # plain C conversions around) x both functions x every byte position, deterministically (a random choice of shape missed F13)
+    for fi in range(len(PF_FMTS)):
+        for fnname in ('fprintf', 'vfprintf'):
+            for j in range(2 if q else 12):
+                k += 1
+                if k % nw == wid: yield ('wfail', 'fprintf', fi, fnname, rng.getrandbits(48))
     hdrs = range(1 << 16) if not q else rng.sample(range(1 << 16), 1500) + [0, 0xffff, 0x8000, 0x7fff, 0x0001, 0xff00]
     for h in hdrs:
         k += 1
@@ -194,17 +205,16 @@ def build(spec, env):
             return out
         return Case(cmds, check, 3 * (len(data) + 1), ('trunc', what, base, err, unbuf, min(len(data), 60)))
     if kind == 'wfail':
-        _, what, _s = spec
+        what = spec[1]
         if what == 'fprintf':
             z = gen.val(r, 3); qv = api.rnd_q(r); f = api.rnd_f(r, 100)
-            fmt = r.choice(['%Zd|%Qd|%.10Ff', 'x=%Zx y=%d %s', '%Qx\n', '[%20Zd]', '%s%Zd%s', '%.20Fe'])
-            args = {'%Zd|%Qd|%.10Ff': 'Z1 Q1 F1', 'x=%Zx y=%d %s': 'Z1 #42 ' + shex('tail'), '%Qx\n': 'Q1', '[%20Zd]': 'Z1', '%s%Zd%s': shex('ab') + ' Z1 ' + shex('cd'), '%.20Fe': 'F1'}[fmt]
+            fmt, args = PF_FMTS[spec[2]]; fnname = spec[3]
+            if spec[4] & 1: z = gen.val(r, 1); qv = Fraction(r.randint(-99, 99), r.randint(1, 9))
             setup = ['z Z1 %s' % hx(z), 'q Q1 %s %s' % (hx(qv.numerator), hx(qv.denominator)), api.fcmd('F1', 128, f)]
-            fnname = r.choice(['fprintf', 'vfprintf'])
             call = 'pf %s - %s %s' % (fnname, shex(fmt), args)
             # length: run once without faults first
             cmds = setup + ['wstream -1 1', call, 'wget']
-            L = 80
+            L = 300
             for kpos in range(L): cmds += ['wstream %d 1' % kpos, call, 'wget']
             def check(rep, fmt=fmt, fnname=fnname):
                 out = []; n0 = len(setup)
